@@ -75,7 +75,10 @@ class C05(Prop):
             h1 = dense_hand(rng)
             h2 = neighbour(rng, h1) if rng.random() < 0.7 else dense_hand(rng)
             p = list(h1); rng.shuffle(p)
-            yield {"h1": h1, "h2": h2, "perm": p}
+            c = {"h1": h1, "h2": h2, "perm": p}
+            if rng.random() < 0.3:
+                c["pre"] = rng.randrange(1, 1 << 16)
+            yield c
 
     def exhaustive(self, tier, shard, nshards):
         if tier != "thorough":
@@ -90,6 +93,8 @@ class C05(Prop):
 
     def impl(self, case):
         out = []
+        if case.get("pre"):
+            helper_prelude(case["h1"] + case["h2"] + case["perm"], case["pre"])
         for h in (case["h1"], case["h2"], case["perm"]):
             try:
                 out.append(list(self.f(list(h))))
@@ -121,6 +126,40 @@ class C05(Prop):
         key = "".join(sorted(case["h1"])) if s1[0] != 0 else None
         tags = [f"cat={s1[0]}", "tie" if s1 == s2 and sorted(case["h1"]) != sorted(case["h2"]) else "cmp"]
         return Verdict(agree, holds, " ;; ".join(why[:4]), key, tags)
+
+
+def helper_prelude(cards, code):
+    """Calls the library's public, pure rank/suit helpers on the very cards about to be evaluated, with flag
+    combinations chosen by `code` that the evaluators themselves never use (ace low only, duplicates kept, ...).
+    These calls have no effect on correct code; an evaluator result that changes after them depends on process
+    history (e.g. a memo table keyed too coarsely), which the properties quantifying over every hand exclude."""
+    from card_utils.deck import utils as du
+    from card_utils.games.gin import utils as gu
+    groups = ([cards[i:i + 5] for i in range(0, len(cards), 5)] + [cards]) if cards and isinstance(cards[0], str) else cards
+    k = 0
+    for g in groups:
+        ranks = [c[0] for c in g]
+        for ah, al in ((False, True), (True, False), (True, True)):
+            for distinct in (False, True):
+                for reverse in (False, True):
+                    k += 1
+                    if (code >> (k % 16)) & 1:
+                        try:
+                            du.ranks_to_sorted_values(ranks, aces_high=ah, aces_low=al, distinct=distinct, reverse=reverse)
+                        except Exception:
+                            pass
+            for suit in "cdhs":
+                k += 1
+                if (code >> (k % 16)) & 1:
+                    try:
+                        gu.rank_straights(ranks, aces_high=ah, aces_low=al, suit=suit)
+                    except Exception:
+                        pass
+        for f in (du.rank_partition, du.suit_partition):
+            try:
+                f(list(g))
+            except Exception:
+                pass
 
 
 def dense_deal(rng, nboard=5, sizes=(4, 2)):
@@ -177,7 +216,10 @@ class C06(Prop):
             b, h4, h2 = dense_deal(rng)
             if rng.random() < 0.3:
                 rng.shuffle(b); rng.shuffle(h4)
-            yield {"board": b, "h4": h4, "h2": h2}
+            c = {"board": b, "h4": h4, "h2": h2}
+            if rng.random() < 0.25:
+                c["pre"] = rng.randrange(1, 1 << 16)
+            yield c
 
     def exhaustive(self, tier, shard, nshards):
         """thorough: ALL suit-free Omaha rank patterns (board rank multiset x hand rank multiset, at most four of a
@@ -226,6 +268,9 @@ class C06(Prop):
             except Exception as e:
                 return "!" + type(e).__name__
         b, h4, h2 = list(case["board"]), list(case["h4"]), list(case["h2"])
+        if case.get("pre"):
+            helper_prelude([b, h4, h2, b + h4, b + h2] + [[c for c in b if c[1] == s] for s in "cdhs"]
+                           + [[c for c in b + h4 if c[1] == s] for s in "cdhs"], case["pre"])
         if case.get("_nobrute"):   # exhaustive scope: the optimised evaluator against model and spec only
             return {"fast": run(self.ou.get_hand_strength_fast, b, h4), "brute": None,
                     "holdem": run(self.hu.get_hand_strength_fast, b, h2), "hbrute": None}
